@@ -19,12 +19,14 @@ func runC03(r *engine.Run) {
 	r.Rule("CLONE-store", "MemoryNodeDB stores CloneNode() of the node it is given (never the caller's object); the trie populates its node cache only through TransactionCache.Set (which clones, C07)")
 	r.Rule("DOM-cancel", "see C05: a node that is live again in the child never stays in the child's delete set (the merge would delete it from the parent)")
 	r.Rule("FRESH-node", "in the trie operations no node field store, node mutator call (SetValue, PutChild, SetOrigin, SetVersion, SetOriginTracker, Decode, CopyFrom) or in-place byte-slice write (append base, copy destination, element store) targets memory that derives from a node handed out by the store/cache, from a caller's argument or from a shallow copy; only constructor results, Clone() results, concat/make results and literals may be written (interprocedural source-label dataflow, parameters by fixpoint over call sites)")
+	r.Rule("DOM-adopt", "in MergeMPTChanges, MergeChanges and mergeChanges every return either returns a provably non-nil error, returns the result of mergeChanges, is dominated by the adoption of the child's root (mergeChanges call / setRoot(newRoot) / store of newRoot to root), or is reached only where bytes.Equal(this trie's root, the child's root) held: a merge never reports success while the parent keeps a root different from the child's")
 	r.NotDec = append(r.NotDec, "equality of parent and child views after arbitrary histories")
 	whoPrev(r)
 	domMerge(r)
 	cloneStore(r)
 	freshNode(r, "C03")
 	domCancel(r)
+	domAdopt(r, "DOM-adopt")
 }
 
 func whoPrev(r *engine.Run) {
